@@ -18,17 +18,73 @@ pub fn no_child(_: &[String]) -> i32 {
     2
 }
 
+pub mod codec;
+pub mod hnsw;
+pub mod index;
 pub mod okey;
+pub mod walframe;
+pub mod capi_sched;
+pub mod locks;
+pub mod handles;
+pub mod snapsched;
+pub mod backup;
+pub mod cygen;
+pub mod query;
+pub mod update;
+pub mod btree;
+pub mod englib;
+pub mod pager;
+pub mod vacuum;
+pub mod plan;
 pub mod value;
 pub mod sort;
 pub mod agg;
+pub mod engine;
+pub mod bulk;
+pub mod cypher14;
+pub mod extid;
+pub mod capi;
+pub mod capix;
+pub mod hostcrash;
+pub mod crash;
+pub mod fault;
 
 pub fn all() -> Vec<StreamDef> {
     vec![
+        codec::def(),
+        hnsw::def(),
+        index::def(),
         okey::def(),
+        walframe::def(),
+        capi_sched::def(),
+        locks::def(),
+        handles::def(),
+        snapsched::def(),
+        backup::def(),
+        query::def(),
+        update::def(),
+        btree::def(),
+        pager::def(),
+        vacuum::def(),
+        plan::def(),
+        plan::def_lim(),
+        plan::def_where(),
         value::def(),
         sort::def(),
         agg::def(),
+        engine::def(),
+        engine::def_reopen(),
+        engine::def_compact(),
+        engine::def_abort(),
+        bulk::def(),
+        cypher14::def(),
+        extid::def(),
+        capi::def(),
+        capi::def_ryw(),
+        capix::def(),
+        hostcrash::def(),
+        crash::def(),
+        fault::def(),
     ]
 }
 
